@@ -65,7 +65,7 @@ func raDecode(b []byte, t wire.Type, plan simio.Plan) outcome {
 		ra := simio.NewReaderAt(b, plan)
 		ra.Budget = budgetFor(len(b))
 		r := binary.NewReader(ra)
-		v, off, err := r.ReadValue(t, 0)
+		v, off, err := r.ReadValue(t, int64(plan.Start))
 		if err != nil {
 			return outcome{err: err.Error()}
 		}
@@ -73,7 +73,7 @@ func raDecode(b []byte, t wire.Type, plan simio.Plan) outcome {
 		if err != nil {
 			return outcome{err: "force: " + err.Error()}
 		}
-		return outcome{ok: true, val: rv, used: off}
+		return outcome{ok: true, val: rv, used: off - int64(plan.Start)}
 	})
 }
 
@@ -88,7 +88,7 @@ func stDecode(b []byte, t wire.Type, plan simio.Plan) outcome {
 		if err != nil {
 			return outcome{err: err.Error()}
 		}
-		return outcome{ok: true, val: v, used: int64(raw.Offset())}
+		return outcome{ok: true, val: v, used: int64(raw.Offset() - plan.Start)}
 	})
 }
 
@@ -102,7 +102,7 @@ func stSkip(b []byte, t wire.Type, plan simio.Plan) outcome {
 		if err := sr.Skip(t); err != nil {
 			return outcome{err: err.Error()}
 		}
-		return outcome{ok: true, used: int64(raw.Offset())}
+		return outcome{ok: true, used: int64(raw.Offset() - plan.Start)}
 	})
 }
 
@@ -172,8 +172,18 @@ func RunC03(cfg simrt.Config, o world.Opts) *world.Result {
 	s.Inline(func() {
 		t, b, desc, class := genInput2(genOpts{maxDepth: 3, allowBig: true})
 		wt := wire.Type(t)
-		logf("input: decode as %s, %d bytes (%s): %x", ref.TypeName(t), len(b), desc, clip(b, 96))
-		full := simio.Plan{TruncAt: -1, ErrAt: -1}
+		// the value may start at a non-zero position of the underlying reader
+		start := 0
+		if simrt.Flip("in.prefix", 0.3) {
+			start = 1 + ch("in.prefix-len", 9)
+			pre := make([]byte, start)
+			for i := range pre {
+				pre[i] = typeBytes[ch("in.prefix-byte", len(typeBytes))]
+			}
+			b = append(pre, b...)
+		}
+		logf("input: decode as %s at offset %d, %d bytes (%s): %x", ref.TypeName(t), start, len(b), desc, clip(b, 96))
+		full := simio.Plan{TruncAt: -1, ErrAt: -1, Start: start}
 		base := raDecode(b, wt, full)
 		logf("baseline (random-access, full delivery): %s", base)
 		h.Str(base.String())
@@ -190,11 +200,11 @@ func RunC03(cfg simrt.Config, o world.Opts) *world.Result {
 			res.Count("c03.baseline-ok", 1)
 			res.Count("c03.ok."+class, 1)
 			// 2. canonical form
-			if base.used < 0 || base.used > int64(len(b)) {
-				res.Failf("C03/consumed-range", "decode reported %d bytes consumed of %d", base.used, len(b))
+			if base.used < 0 || base.used > int64(len(b)-start) {
+				res.Failf("C03/consumed-range", "decode reported %d bytes consumed of %d", base.used, len(b)-start)
 				return
 			}
-			prefix := b[:base.used]
+			prefix := b[start : int64(start)+base.used]
 			if enc := ref.Encode(nil, base.val); !bytes.Equal(enc, prefix) {
 				res.Failf("C03/canonical", "decode of %x as %s succeeded (consumed %d) but re-encoding gives %x", clip(prefix, 64), ref.TypeName(t), base.used, clip(enc, 64))
 			}
@@ -211,7 +221,7 @@ func RunC03(cfg simrt.Config, o world.Opts) *world.Result {
 				res.Failf("C03/canonical-lib", "library re-encoding %x differs from consumed prefix %x", clip(w.Buf, 64), clip(prefix, 64))
 			}
 			// reference decoder agreement (observation only)
-			if rv, rc, rerr := ref.Decode(b, t); rerr != nil || rc != int(base.used) || !bytes.Equal(ref.Encode(nil, rv), prefix) {
+			if rv, rc, rerr := ref.Decode(b[start:], t); rerr != nil || rc != int(base.used) || !bytes.Equal(ref.Encode(nil, rv), prefix) {
 				res.Count("c03.note.reference-decoder-disagrees", 1)
 			}
 		} else {
@@ -226,6 +236,7 @@ func RunC03(cfg simrt.Config, o world.Opts) *world.Result {
 		for d := 0; d < D; d++ {
 			faulted := d%3 == 2
 			plan := simio.GenPlan(len(b), faulted)
+			plan.Start = start
 			which := ch("c03.reader-kind", 3)
 			var got outcome
 			name := ""
@@ -258,7 +269,7 @@ func RunC03(cfg simrt.Config, o world.Opts) *world.Result {
 			if plan.ErrAt >= 0 {
 				cut = int64(plan.ErrAt)
 			}
-			effective := cut >= 0 && base.ok && cut < base.used // the fault lies inside the value
+			effective := cut >= 0 && base.ok && cut < int64(start)+base.used // the fault lies inside the value (or before it)
 			if cut >= 0 && !base.ok && cut < int64(len(b)) {
 				effective = true // cannot tell where the failure point was; only "must not succeed" is checked
 			}
